@@ -55,6 +55,18 @@ ProgOf(n, U, Q, D, P, R, site) ==
                 [] m = "g" -> ModG(n)
                 [] m = "h" -> ModH(n)]]
 
+\* imports are not transitive: g2 imports k unqualified and uses k's declaration of the contested name itself, but does not
+\* declare it - the main module, importing g2, must not see k's declaration (nor under its own qualifier)
+ModG2(n) == <<UseAs("h", "q"), Use("k"), Let("t", Marker("t")), Let("w", QVar("q", n)), Let("v", Var(n))>>
+ModK(n) == <<DeclOf(n, Marker("k"))>>
+ProgOfT(n, U, Q, D, P, R, site) ==
+  [main |-> "m1",
+   mods |-> [m \in {"m1", "g", "h", "k"} |->
+              CASE m = "m1" -> MainOf(n, U, Q, D, P, R, site)
+                [] m = "g" -> ModG2(n)
+                [] m = "h" -> ModH(n)
+                [] m = "k" -> ModK(n)]]
+
 Names == {"n", "concat"}
 Sites == {"top", "fn", "rec", "recfn", "qual", "afterrec", "afterrecfn", "recres"}
 
@@ -73,6 +85,9 @@ ScopesFamily ==
      n \in {"q", "@n"}, U \in BOOLEAN, Q \in BOOLEAN, D \in 0..2, P \in {"n", "p"}, R \in {"n", "z"}, site \in {"top", "fn", "qual"}}
   \cup {ProgOfL("n", U, Q, D, P, R, site) :
      U \in BOOLEAN, Q \in BOOLEAN, D \in 0..2, P \in {"n", "p"}, R \in {"n", "z"}, site \in {"top", "fn", "qual", "afterrecfn"}}
+
+  \cup {ProgOfT(n, TRUE, Q, D, P, R, site) :
+     n \in {"n", "@n"}, Q \in BOOLEAN, D \in 0..2, P \in {"n", "p"}, R \in {"n", "z"}, site \in {"top", "fn", "qual"}}
 
 ScopesSmall ==
   {ProgOf("n", U, Q, D, P, R, site) :
